@@ -18,9 +18,9 @@ from props.c02 import ref_parse
 ID = "C06"
 LEVEL = "model_checking"
 RULE = ("sidecars = every choice of 2-4 columns from the kind menu (plain categorical, value, ignored, non-object entry, "
-        "categorical / value templates with a reference at each of 10 structural positions and two-reference templates, "
+        "categorical / value templates with a reference at each of 11 structural positions (one with the same reference twice) and two-reference templates, "
         "referring to a categorical column, a value column or HED) ; tables = the full cross product of the per-column cell "
-        "alphabets {each key, n/a, unknown key, value, empty} as rows, in 2-3 column orders and 2 row orders; histories of "
+        "alphabets {each key, n/a, unknown key, value, value with backslash escapes, value with '#', empty} as rows, in 2-3 column orders and 2 row orders; histories of "
         "length <= 3 over {assemble, series_a, dataframe_a, validate}.  distinct case = (sidecar, row); non-trivial = row with "
         "a reference whose target is n/a / unselected, or with >= 2 contributing columns; state = (sidecar signature, history); "
         "transition = one assembly call on the implementation")
@@ -31,7 +31,7 @@ ASSUMPTIONS = [
     "labels and row order are judged",
 ]
 
-REF_POSITIONS = ["{R}", "Circle, {R}", "{R}, Circle", "(Circle, {R})", "({R}, Circle)", "(({R}), Circle)", "Circle, ({R})",
+REF_POSITIONS = ["{R}", "Circle, {R}", "({R}), (Circle, {R})", "{R}, Circle", "(Circle, {R})", "({R}, Circle)", "(({R}), Circle)", "Circle, ({R})",
                  "(Circle, ({R}, Triangle))", "Circle, {R}, Triangle", "((({R})))"]
 TWO_REFS = ["{R}, {S}", "({R}, {S})", "({R}), ({S}), Circle", "(Circle, ({R}, ({S})))"]
 
@@ -157,10 +157,11 @@ def kinds_menu(thorough):
     menu.append(("cat", lambda R, S: ({"HED": {"a": "Red", "b": "(Blue, Square)"}},
                                       {"kind": "categorical", "map": {"a": "Red", "b": "(Blue, Square)"}},
                                       ["a", "b", "n/a", "zz"])))
-    menu.append(("val", lambda R, S: ({"HED": "Label/#"}, {"kind": "value", "template": "Label/#"}, ["v1", "n/a"])))
+    menu.append(("val", lambda R, S: ({"HED": "Label/#"}, {"kind": "value", "template": "Label/#"},
+                                      ["v1", "n/a", "fa\\fam\\d1\\1", "x#y"])))
     menu.append(("ign", lambda R, S: ({"Description": "ignored"}, {"kind": "ignore"}, ["x", "n/a"])))
     menu.append(("scalar", lambda R, S: ("rest", {"kind": "ignore"}, ["x"])))
-    positions = REF_POSITIONS if thorough else REF_POSITIONS[:8]
+    positions = REF_POSITIONS if thorough else REF_POSITIONS[:9]
     for i, pos in enumerate(positions):
         menu.append((f"catref{i}", lambda R, S, pos=pos: (
             {"HED": {"a": pos.replace("R", R), "b": "Green"}},
